@@ -212,6 +212,7 @@ class NpMixin:
             return ("m", self.sview_key(v[1], st), v[2][0], str(v[2][1]))
         _, arr, axes = v
         h = arr.snap if arr.snap is not None else st.heap[arr.cell]
+        self._keep.append(h)
         hid = tuple(x.get_id() for x in (h if isinstance(h, tuple) else (h,)))
         return ("v", hid, tuple(ax[0] for ax in axes), tuple(str(f) for f in arr.fixed))
 
